@@ -10,7 +10,7 @@ from __future__ import annotations
 import ast
 from typing import Callable, Dict, FrozenSet, Iterable, List, Optional, Set, Tuple
 
-from .load import (AnalysisError, FuncNode, Program, Resolver, Scope, dotted,
+from .load import (AnalysisError, FuncNode, Program, Resolver, Scope, ancestors, dotted,
                    own_nodes, parent)
 from . import model
 from .model import ANY, canon_exc, issub
@@ -202,6 +202,9 @@ class CFG:
                 return
             if c.kind == 'inline':
                 if what == 'return':
+                    if getattr(c, 'return_through', False):
+                        i -= 1
+                        continue      # `return helper(...)`: the helper's returns are the caller's returns
                     c.returns.append((src, 'return'))
                     return
                 raise AnalysisError(f'{what} crosses an inlined helper boundary')
@@ -342,6 +345,23 @@ class CFG:
                 raise AnalysisError('unsupported del target')
 
     def _s_Return(self, s: ast.Return) -> None:
+        v = s.value
+        call = v.value if isinstance(v, ast.Await) and isinstance(v.value, ast.Call) else v
+        if isinstance(call, ast.Call):
+            target = self._inline_target(call, awaited=isinstance(v, ast.Await))
+            if target is not None and not any(getattr(c, 'assign_targets', None) for c in self.ctx if c.kind == 'inline'):
+                self._expr(call.func)
+                for a in call.args:
+                    self._expr(a)
+                for k in call.keywords:
+                    self._expr(k.value)
+                self._inline(call, *target, return_through=True)
+                if self.cur:
+                    # the helper fell off its end: `return None`
+                    n = self._node('inline_return' if self._inlining else 'return', s, through=True)
+                    self._dispatch_jump('return', n)
+                    self.cur = []
+                return
         if s.value is not None:
             self._expr(s.value)
         if self._inlining:
@@ -352,7 +372,8 @@ class CFG:
                 val = s.value if s.value is not None else ast.Constant(value=None)
                 for tg in ic.assign_targets:
                     self._store(tg, val, ic.assign_stmt)
-        n = self._node('inline_return' if self._inlining else 'return', s)
+        through = bool(self._inlining) and all(getattr(c, 'return_through', False) for c in self.ctx if c.kind == 'inline')
+        n = self._node('return' if (not self._inlining or through) else 'inline_return', s)
         self._dispatch_jump('return', n)
         self.cur = []
 
@@ -618,7 +639,37 @@ class CFG:
         if target is not None:
             self._inline(e, *target)
             return
+        # a call of a callable *parameter* of the helper being inlined: expand what it is bound to
+        if isinstance(e.func, ast.Name) and self._inlining:
+            ic = next((c for c in reversed(self.ctx) if c.kind == 'inline'), None)
+            bound = getattr(ic, 'callables', {}).get(e.func.id) if ic is not None else None
+            if isinstance(bound, ast.Lambda) and not e.args and not e.keywords and not bound.args.args:
+                self._node('inline_enter', e, name='<lambda>')
+                saved_res, saved_scope = self.res, self.cur_scope
+                host = self._lambda_host(bound)
+                if host is not None:
+                    self.res, self.cur_scope = Resolver(host), host
+                try:
+                    self._expr(bound.body)
+                finally:
+                    self.res, self.cur_scope = saved_res, saved_scope
+                self._node('inline_exit', e, name='<lambda>')
+                self.inline_values[id(e)] = (bound.body, {})
+                return
+            if isinstance(bound, ast.Attribute):
+                synth = ast.Call(func=bound, args=list(e.args), keywords=list(e.keywords))
+                ast.copy_location(synth, e)
+                self._node('call', synth, synthetic_for=e)
+                return
         self._node('call', e)
+
+    def _lambda_host(self, lam: ast.Lambda) -> Optional[Scope]:
+        for a in ancestors(lam):
+            if isinstance(a, FuncNode):
+                for sc in self.unit.scopes.values():
+                    if sc.node is a:
+                        return sc
+        return None
 
     # -- inlining (DESIGN 3.1: extracting a block into a helper that is called
     #    inline - or inlining a helper - must not change any verdict) ----------
@@ -634,14 +685,32 @@ class CFG:
             if not self.inline_nested:
                 return None
             bs = self.cur_scope.binding_scope(f.id)
-            if bs is None or bs.kind != 'function':
+            if bs is not None and bs.kind == 'module':
+                # private module-level helper that calls one of its own parameters (a higher-order
+                # wrapper such as "run this while holding that lock"): expanded so that the code it
+                # wraps is seen in the wrapper's context
+                if not f.id.startswith('_'):
+                    return None
+                cands0 = [c for c in bs.children if c.kind == 'function' and c.name == f.id]
+                if len(cands0) != 1 or _has_nondef_binding(bs, f.id):
+                    return None
+                t0 = cands0[0]
+                pnames = {x.arg for x in t0.node.args.args}
+                calls_param = any(isinstance(x, ast.Call) and isinstance(x.func, ast.Name) and x.func.id in pnames
+                                  for x in own_nodes(t0.node))
+                if not calls_param:
+                    return None
+                bs = None
+                t = t0
+            if t is None and (bs is None or bs.kind != 'function'):
                 return None
             # the helper must be a plain def (bound once, by its def) in this
             # function or an enclosing one
-            cands = [c for c in bs.children if c.kind == 'function' and c.name == f.id]
-            if len(cands) != 1 or _has_nondef_binding(bs, f.id):
-                return None
-            t = cands[0]
+            if t is None:
+                cands = [c for c in bs.children if c.kind == 'function' and c.name == f.id]
+                if len(cands) != 1 or _has_nondef_binding(bs, f.id):
+                    return None
+                t = cands[0]
         elif self.inline_methods and isinstance(f, ast.Attribute) and isinstance(f.value, ast.Name) \
                 and f.value.id == 'self' and f.attr.startswith('_') and not f.attr.startswith('__'):
             sc: Optional[Scope] = self.cur_scope
@@ -661,7 +730,15 @@ class CFG:
                     return None
             t = m
             skip_self = True
-        if t is None or t.is_generator or t.decorators or t.is_async != awaited:
+        static = False
+        if t is not None and t.decorators:
+            decs = [dotted(d) for d in t.decorators]
+            if decs == ['staticmethod']:
+                static = True
+                skip_self = False
+            else:
+                return None
+        if t is None or t.is_generator or t.is_async != awaited:
             return None
         if t.qualname in self._inlining or len(self._inlining) >= 4 or t is self.scope:
             return None
@@ -692,7 +769,7 @@ class CFG:
                 binding[prm] = defaults[prm]
         return t, [(prm, binding[prm]) for prm in allp]
 
-    def _inline(self, e: ast.Call, t: Scope, binding, assign_targets=None, assign_stmt=None) -> None:
+    def _inline(self, e: ast.Call, t: Scope, binding, assign_targets=None, assign_stmt=None, return_through=False) -> None:
         self._node('inline_enter', e, name=t.qualname, awaited=t.is_async, await_ast=parent(e) if t.is_async else None)
         for prm, arg in binding:
             self._node('store_name', arg, e.lineno, name=prm, value=arg, stmt=e, inlined_param=True)
@@ -700,6 +777,9 @@ class CFG:
         c.returns = []
         c.assign_targets = assign_targets
         c.assign_stmt = assign_stmt
+        c.return_through = return_through
+        c.callables = {prm: arg for prm, arg in binding
+                       if isinstance(arg, (ast.Lambda, ast.Attribute)) or (isinstance(arg, ast.Name) and not isinstance(arg, ast.Constant))}
         self.ctx.append(c)
         self._inlining.append(t.qualname)
         saved_res = self.res
